@@ -180,6 +180,47 @@ def check_graph(case):
     return Outcome(nontrivial=nontriv, outcome=f"comps{len(case['parts'])}" + ("sym" if nontriv else "asym"), fails=fails, transitions=ncalls)
 
 
+# ------------------------------------------------------------------ (a') other label selections
+def gen_selections(tier, seed):
+    for c in conn_reps(3, nl=3, ne=2):
+        yield {"code": eg.code_str(c)}
+    for c in eg.representatives(4, 3, 1, connected_only=True):
+        yield {"code": eg.code_str(c)}
+
+
+def check_selection(case):
+    """the exact analysis under label selections other than the default: element only; element, charge, hcount (a third key);
+    two bond keys (order and a mark carried by one bond) - always the automorphisms that preserve exactly the selected labels"""
+    from synkit.Graph.Matcher.automorphism import Automorphism
+
+    code = eg.parse_code(case["code"])
+    G = eg.to_nx(code, VATTR, EATTR)
+    es = sorted(G.edges)
+    for k, (u, v) in enumerate(es):
+        G[u][v]["mark"] = 1 if k == 0 else 0
+    fails = []
+    n = 0
+    nontriv = False
+    sels = [
+        ("element", ["element"], ["order"], lambda a, b: a["element"] == b["element"], ek),
+        ("element+charge+hcount", ["element", "charge", "hcount"], ["order"], lambda a, b: nk(a, b) and a["hcount"] == b["hcount"], ek),
+        ("hcount_first", ["hcount", "element", "charge"], ["order"], lambda a, b: nk(a, b) and a["hcount"] == b["hcount"], ek),
+        ("order+mark", ["element", "charge"], ["order", "mark"], nk, lambda a, b: a["order"] == b["order"] and a["mark"] == b["mark"]),
+        ("mark_only", ["element", "charge"], ["mark"], nk, lambda a, b: a["mark"] == b["mark"]),
+    ]
+    for name, nkeys, ekeys, nm, em in sels:
+        autos = rm.automorphisms(G, nm, em)
+        want_n = len(autos)
+        want_o = {frozenset(o) for o in rm.orbits(G, autos)}
+        nontriv = nontriv or want_n > 1
+        a = Automorphism(G, node_attr_keys=nkeys, edge_attr_keys=ekeys)
+        n += 1
+        got_o = {frozenset(o) for o in a.orbits}
+        if a.n_automorphisms != want_n or got_o != want_o:
+            fails.append(Fail("label_selection", f"{name}: {a.n_automorphisms} automorphisms, orbits {sorted(map(sorted, got_o))}", f"{want_n}, {sorted(map(sorted, want_o))}", key_extra=name))
+    return Outcome(nontrivial=nontriv, outcome="sel", fails=fails, transitions=n)
+
+
 # ------------------------------------------------------------------ (b) de-duplication
 def gen_matches(tier, seed):
     hosts = [c for c in eg.representatives(4, 2, 2)] + [c for c in eg.representatives(3, 2, 2)]
@@ -239,6 +280,8 @@ def check_matches(case):
 def subchecks(tier, seed):
     subs = [
         Sub("graphs", gen_graphs, check_graph, key=lambda c: "+".join(c["parts"]), rule=RULE[tier]),
+        Sub("label_selections", gen_selections, check_selection, key=lambda c: c["code"], rule="connected representatives n<=3 (3 node labels incl. a hydrogen-count variant, 2 bond orders) and n=4 (single bonds), one bond carrying a mark: "
+            "exact analysis under 5 label selections (element only; three node keys in two orders; two bond keys; mark only)"),
         Sub("match_lists", gen_matches, check_matches, key=lambda c: f"{c[0]}<-{c[1]}", rule=RULE[tier]),
     ]
     try:
